@@ -562,6 +562,7 @@ func calibrate() (maxWellFormed uint64, budget uint64, detail map[string]uint64)
 // ---------------------------------------------------------------------------
 
 func main() {
+	core.SuperviseSelf("C11") // a runtime fatal error inside the code under test is a finding, not a harness error
 	budgetFlag := flag.Uint64("allocbudget", 0, "allocation budget per request in bytes (internal)")
 	r := core.Start("C11")
 	groups := hostileGroups(r.Quick())
